@@ -13,10 +13,14 @@
   the seed on; C16's stream theorem carries this across refills (the seed of a refill is an occurrence).
 
   Status: SECONDLY, MINUTELY, HOURLY, DAILY, WEEKLY — proved in full, BYSETPOS included.
-          MONTHLY, YEARLY — proved, BYSETPOS and the refill included, for the RFC rule language minus two classes in which the
-          code is wrong (recorded findings D125, D129; `MlySup`, `YlySup` spell the classes out): the theorems carry
-          `_partial` in their names for that reason.  SHIFT and BYEASTER are echse's own extensions and are C17's matter
-          (`r.shift = 0`, `r.easter = []` here).
+          MONTHLY, YEARLY — proved, BYSETPOS and the refill included, for the whole RFC rule language (after the repairs of
+          findings D125, D129: numbered BYDAY entries as a limit next to BYMONTHDAY / BYYEARDAY, and BYWEEKNO / BYYEARDAY /
+          BYMONTH / BYMONTHDAY limiting one another).  What `MlySup`, `YlySup` still assume is what the parser guarantees
+          (sizes of the BYMONTHDAY / BYMONTH sets, BYDAY ordinals from -53 on) and, for YEARLY, that BYDAY next to BYWEEKNO
+          alone carries no ordinals — a combination RFC 5545 forbids, where the code drops the numbered entries and the
+          specification reads them as plain weekdays (`yearly_weekno_numbered_byday`).  MONTHLY completeness keeps
+          `MlyFirstPos` (an occurrence within the first 336 months; see below).  SHIFT and BYEASTER are echse's own
+          extensions and are C17's matter (`r.shift = 0`, `r.easter = []` here).
   The proofs are in Echse/Lemmas/RrSubRfc*, RrSlyRfc*, RrMnlyRfc*, RrHlyRfc*, RrRfcBase*, RrRfcPos*, RrDlyRfc*, RrDlyPos*,
   RrWlyRfc*, RrWlyPos*, RrCandRfc*, RrCandPos*, RrMlyRfc*, RrMlyPos*, RrMlyReseed, RrYlyRfc*, RrYlyPos*, RrYlyReseed.
 -/
@@ -114,18 +118,19 @@ theorem weekly_of_daily {r : Rule} {p x : Inst} (h1 : plainDays r ≠ []) (h2 : 
     WeeklyInst r p x := Echse.Lemmas.RrDlyRfc.weekly_of_daily h1 h2 hx
 
 /-! ### FREQ=MONTHLY
-  `MlySup r`: at most 62 BYMONTHDAY values (what the parser's set holds) and no numbered BYDAY entry (1MO, -1FR) next to
-  BYMONTHDAY — there the code ignores the numbers (finding D125).  `MlyFirstPos r p` (completeness only): the rule has an
-  occurrence within its first 336 periods from the seed; the code gives up after 337 fruitless months, exactly one more than
-  the 336 months after which month lengths and weekdays repeat, so there is no slack to argue with — the hypothesis is
-  discharged when the seed is itself an occurrence (`monthly_none_missing_sync_partial`), which is the case at every refill. -/
+  `MlySup r`: at most 62 BYMONTHDAY values (what the parser's set holds) — no RFC-valid rule is left out.  BYDAY next to
+  BYMONTHDAY limits, a numbered entry (1MO, -1FR) allowing the n-th such weekday of the month only (`bydayInMonth`).
+  `MlyFirstPos r p` (completeness only): the rule has an occurrence within its first 336 periods from the seed; the code
+  gives up after 337 fruitless months, exactly one more than the 336 months after which month lengths and weekdays
+  repeat, so there is no slack to argue with — the hypothesis is discharged when the seed is itself an occurrence
+  (`monthly_none_missing_sync`), which is the case at every refill. -/
 
-theorem monthly_none_extra_partial (r : Rule) (p : Inst) (n : Nat) (l : List Inst) (h0 : Pre r p) (hn : n ≤ 64)
+theorem monthly_none_extra (r : Rule) (p : Inst) (n : Nat) (l : List Inst) (h0 : Pre r p) (hn : n ≤ 64)
     (hsup : MlySup r) (hsh : r.shift = 0) (hf : r.pos ≠ [] → r.freq = 2) (h : fillMly r p n = some l) :
     ∀ x ∈ l, MonthlyInst r p x ∧ SetposOk r p x :=
   fillMly_sound_all r p n l h0.rule h0.seed h0.kind hn h0.year hsup hsh hf h
 
-theorem monthly_none_missing_partial (r : Rule) (p : Inst) (n : Nat) (l : List Inst) (h0 : Pre r p) (hn : n ≤ 64)
+theorem monthly_none_missing (r : Rule) (p : Inst) (n : Nat) (l : List Inst) (h0 : Pre r p) (hn : n ≤ 64)
     (hsup : MlySup r) (hsh : r.shift = 0) (hf : r.pos ≠ [] → r.freq = 2) (hfp : MlyFirstPos r p)
     (h : fillMly r p n = some l)
     (x : Inst) (hx : MonthlyInst r p x) (hsp : SetposOk r p x) (hge : absOf p ≤ absOf x)
@@ -134,20 +139,20 @@ theorem monthly_none_missing_partial (r : Rule) (p : Inst) (n : Nat) (l : List I
   fillMly_complete_all r p n l h0.rule h0.seed h0.kind hn h0.year hsup hsh hf hfp h x hx hsp hge hle hxy
 
 /-- without BYSETPOS a seed that is an occurrence needs no `MlyFirstPos` -/
-theorem monthly_none_missing_sync_partial (r : Rule) (p : Inst) (n : Nat) (l : List Inst) (h0 : Pre r p) (hn : n ≤ 64)
+theorem monthly_none_missing_sync (r : Rule) (p : Inst) (n : Nat) (l : List Inst) (h0 : Pre r p) (hn : n ≤ 64)
     (hsup : MlySup r) (hsh : r.shift = 0) (hpos : r.pos = []) (hsync : MonthlyInst r p p) (h : fillMly r p n = some l)
     (x : Inst) (hx : MonthlyInst r p x) (hge : absOf p ≤ absOf x) (hle : ltP r.untl x = false) (hxy : x.y ≤ 2099) :
     x ∈ l ∨ (l.length = capOf r n ∧ ∀ z ∈ l, ltP z x = true) :=
   fillMly_complete_sync r p n l h0.rule h0.seed h0.kind hn h0.year hsup hsh hpos hsync h x hx hge hle hxy
 
 /-- across a refill: the seed `p` is an occurrence of (`ds`, rule); what the call writes are occurrences of (`ds`, rule) … -/
-theorem monthly_refill_none_extra_partial (r : Rule) (ds p : Inst) (n : Nat) (l : List Inst) (h0 : Pre r p) (hn : n ≤ 64)
+theorem monthly_refill_none_extra (r : Rule) (ds p : Inst) (n : Nat) (l : List Inst) (h0 : Pre r p) (hn : n ≤ 64)
     (hsup : MlySup r) (hsh : r.shift = 0) (hf : r.pos ≠ [] → r.freq = 2) (hseed : MonthlyInst r ds p)
     (h : fillMly r p n = some l) : ∀ x ∈ l, MonthlyInst r ds x ∧ SetposOk r ds x :=
   fillMly_sound_reseed r ds p n l h0.rule h0.seed h0.kind hn h0.year hsup hsh hf hseed h
 
 /-- … and none from the seed on is left out -/
-theorem monthly_refill_none_missing_partial (r : Rule) (ds p : Inst) (n : Nat) (l : List Inst) (h0 : Pre r p) (hn : n ≤ 64)
+theorem monthly_refill_none_missing (r : Rule) (ds p : Inst) (n : Nat) (l : List Inst) (h0 : Pre r p) (hn : n ≤ 64)
     (hsup : MlySup r) (hsh : r.shift = 0) (hf : r.pos ≠ [] → r.freq = 2) (hseed : MonthlyInst r ds p)
     (hfp : MlyFirstPos r p) (h : fillMly r p n = some l)
     (x : Inst) (hx : MonthlyInst r ds x) (hsp : SetposOk r ds x) (hge : absOf p ≤ absOf x)
@@ -156,31 +161,34 @@ theorem monthly_refill_none_missing_partial (r : Rule) (ds p : Inst) (n : Nat) (
   fillMly_complete_reseed r ds p n l h0.rule h0.seed h0.kind hn h0.year hsup hsh hf hseed hfp h x hx hsp hge hle hxy
 
 /-! ### FREQ=YEARLY
-  `YlySup r`: no BYEASTER, at most 62 BYMONTHDAY and 12 BYMONTH values, BYDAY ordinals not below -53, and one of the
-  combinations of parts the code expands the way RFC 5545 says (`YlyCombo`): none or BYMONTH alone; BYMONTHDAY (with or
-  without BYMONTH, plain BYDAY as a limit); BYYEARDAY (plain BYDAY as a limit); BYDAY (with or without BYMONTH, numbered
-  entries allowed); BYWEEKNO (with or without plain BYDAY).  Left out: BYWEEKNO or BYYEARDAY next to BYMONTH / BYMONTHDAY /
-  each other, where the code yields a union (finding D129), and numbered BYDAY as a limit (D125).  No "first occurrence"
-  hypothesis is needed: the calendar repeats after 28 years and the code tries 63 of them. -/
+  `YlySup r`: no BYEASTER (not RFC 5545), at most 62 BYMONTHDAY and 12 BYMONTH values (the parser's sets), BYDAY ordinals
+  not below -53 (RFC 5545: -53..53), and `wkPlain`: with BYWEEKNO and neither BYYEARDAY nor BYMONTHDAY, BYDAY has plain
+  weekdays only.  RFC 5545 forbids numbered BYDAY entries together with BYWEEKNO altogether, so no RFC-valid rule is left
+  out; the hypothesis is needed, as `fill_yly_ywd` skips numbered entries while `YearlyInst` (`bydayLimit`) reads them
+  as plain weekdays: `yearly_weekno_numbered_byday`.  Every combination of BYMONTH / BYWEEKNO / BYYEARDAY / BYMONTHDAY /
+  BYDAY is covered: each part present limits the dates of the year, BYDAY limits when BYYEARDAY or BYMONTHDAY is there
+  (numbered entries counting within the month with BYMONTH, within the year without), else picks the weekdays within
+  the weeks of BYWEEKNO, the months of BYMONTH, or the year.  No "first occurrence" hypothesis is needed: the calendar
+  repeats after 28 years and the code tries 63 of them. -/
 
-theorem yearly_none_extra_partial (r : Rule) (p : Inst) (n : Nat) (l : List Inst) (h0 : Pre r p) (hn : n ≤ 64)
+theorem yearly_none_extra (r : Rule) (p : Inst) (n : Nat) (l : List Inst) (h0 : Pre r p) (hn : n ≤ 64)
     (hsup : YlySup r) (hsh : r.shift = 0) (hf : r.pos ≠ [] → r.freq = 1) (h : fillYly r p n = some l) :
     ∀ x ∈ l, YearlyInst r p x ∧ SetposOk r p x :=
   fillYly_sound_all r p n l h0.rule h0.seed h0.kind hn h0.year hsup hsh hf h
 
-theorem yearly_none_missing_partial (r : Rule) (p : Inst) (n : Nat) (l : List Inst) (h0 : Pre r p) (hn : n ≤ 64)
+theorem yearly_none_missing (r : Rule) (p : Inst) (n : Nat) (l : List Inst) (h0 : Pre r p) (hn : n ≤ 64)
     (hsup : YlySup r) (hsh : r.shift = 0) (hf : r.pos ≠ [] → r.freq = 1) (h : fillYly r p n = some l)
     (x : Inst) (hx : YearlyInst r p x) (hsp : SetposOk r p x) (hge : absOf p ≤ absOf x)
     (hle : ltP r.untl x = false) (hxy : x.y ≤ 2099) :
     x ∈ l ∨ (l.length = capOf r n ∧ ∀ z ∈ l, ltP z x = true) :=
   fillYly_complete_all r p n l h0.rule h0.seed h0.kind hn h0.year hsup hsh hf h x hx hsp hge hle hxy
 
-theorem yearly_refill_none_extra_partial (r : Rule) (ds p : Inst) (n : Nat) (l : List Inst) (h0 : Pre r p) (hn : n ≤ 64)
+theorem yearly_refill_none_extra (r : Rule) (ds p : Inst) (n : Nat) (l : List Inst) (h0 : Pre r p) (hn : n ≤ 64)
     (hsup : YlySup r) (hsh : r.shift = 0) (hf : r.pos ≠ [] → r.freq = 1) (hseed : YearlyInst r ds p)
     (h : fillYly r p n = some l) : ∀ x ∈ l, YearlyInst r ds x ∧ SetposOk r ds x :=
   fillYly_sound_reseed r ds p n l h0.rule h0.seed h0.kind hn h0.year hsup hsh hf hseed h
 
-theorem yearly_refill_none_missing_partial (r : Rule) (ds p : Inst) (n : Nat) (l : List Inst) (h0 : Pre r p) (hn : n ≤ 64)
+theorem yearly_refill_none_missing (r : Rule) (ds p : Inst) (n : Nat) (l : List Inst) (h0 : Pre r p) (hn : n ≤ 64)
     (hsup : YlySup r) (hsh : r.shift = 0) (hf : r.pos ≠ [] → r.freq = 1) (hseed : YearlyInst r ds p)
     (h : fillYly r p n = some l)
     (x : Inst) (hx : YearlyInst r ds x) (hsp : SetposOk r ds x) (hge : absOf p ≤ absOf x)
@@ -188,9 +196,35 @@ theorem yearly_refill_none_missing_partial (r : Rule) (ds p : Inst) (n : Nat) (l
     x ∈ l ∨ (l.length = capOf r n ∧ ∀ z ∈ l, ltP z x = true) :=
   fillYly_complete_reseed r ds p n l h0.rule h0.seed h0.kind hn h0.year hsup hsh hf hseed h x hx hsp hge hle hxy
 
-/-! the hypotheses are satisfiable: an ordinary rule of each kind -/
-example : MlySup { freq := 2, dom := [15, -1], dow := [] } := ⟨by decide, by intro _ t ht; cases ht⟩
+/-- why `YlySup.wkPlain` is there: FREQ=YEARLY;BYWEEKNO=20;BYDAY=1MO from 2021-01-04T09:00:00 — the code finds nothing
+(`echse unroll` prints nothing either), the specification has the Monday of week 20 -/
+theorem yearly_weekno_numbered_byday :
+    fillYly { freq := 1, wk := [20], dow := [1 * 8 + 1] }
+      { y := 2021, m := 1, d := 4, H := 9, M := 0, S := 0, ms := 0 } 1 = some [] ∧
+    YearlyInst { freq := 1, wk := [20], dow := [1 * 8 + 1] }
+      { y := 2021, m := 1, d := 4, H := 9, M := 0, S := 0, ms := 0 }
+      { y := 2021, m := 5, d := 17, H := 9, M := 0, S := 0, ms := 0 } := by
+  refine ⟨by decide +kernel, ?_⟩
+  unfold YearlyInst
+  refine ⟨by unfold SameKind; decide, ⟨0, by decide⟩, Or.inl rfl, Or.inr ⟨20, by decide, by decide +kernel⟩,
+    Or.inl rfl, Or.inl rfl, ?_, Or.inr ⟨by unfold hourExp; decide, by unfold minExp; decide, by unfold secExp; decide⟩⟩
+  rw [if_pos (by decide), if_neg (by decide), if_pos (by decide)]
+  exact ⟨9, by decide, by decide +kernel⟩
+
+/-! the hypotheses are satisfiable: ordinary rules of each kind -/
+example : MlySup { freq := 2, dom := [15, -1], dow := [] } := ⟨by decide⟩
+/-- MONTHLY;BYMONTHDAY=1,2,3,4,5,6,7;BYDAY=1MO: a numbered BYDAY next to BYMONTHDAY -/
+example : MlySup { freq := 2, dom := [1, 2, 3, 4, 5, 6, 7], dow := [1 * 8 + 1] } := ⟨by decide⟩
 example : YlySup { freq := 1, mon := [3, 10], dow := [-1 * 8 + 7] } :=
-  ⟨rfl, by decide, by decide, by decide, Or.inr (Or.inr (Or.inr (Or.inl ⟨rfl, rfl, rfl, by decide⟩)))⟩
+  ⟨rfl, by decide, by decide, by decide, fun h => absurd rfl h⟩
+/-- YEARLY;BYMONTHDAY=8,9,10,11,12,13,14;BYDAY=2MO,-1FR: numbered BYDAY next to BYMONTHDAY, counted within the year -/
+example : YlySup { freq := 1, dom := [8, 9, 10, 11, 12, 13, 14], dow := [2 * 8 + 1, -1 * 8 + 5] } :=
+  ⟨rfl, by decide, by decide, by decide, fun h => absurd rfl h⟩
+/-- YEARLY;BYWEEKNO=20;BYMONTH=5: BYWEEKNO next to BYMONTH -/
+example : YlySup { freq := 1, mon := [5], wk := [20] } :=
+  ⟨rfl, by decide, by decide, by decide, fun _ _ _ t ht => nomatch ht⟩
+/-- YEARLY;BYYEARDAY=100,-1;BYMONTH=4,12;BYDAY=FR -/
+example : YlySup { freq := 1, doy := [100, -1], mon := [4, 12], dow := [5] } :=
+  ⟨rfl, by decide, by decide, by decide, fun h => absurd rfl h⟩
 
 end C01
